@@ -303,3 +303,62 @@ SWAP_SCOPE = {
 
 def swaps_for_property(F, pid, rule_id):
 	return swapped_args(F, rule_id, SWAP_SCOPE[pid])
+
+# ----------------------------------------------------------------------------- narrow arithmetic widened afterwards
+_WIDTH = {'u8': 8, 'u16': 16, 'u32': 32, 'u64': 64, 'usize': 64, 'u128': 128, 'i8': 8, 'i16': 16, 'i32': 32, 'i64': 64, 'isize': 64}
+_NARROW = {}
+
+def narrow_arith_census(F):
+	"""(hits, judged-per-file): integer casts from a type of at most 16 bits to a wider one whose operand is the result of an addition,
+	multiplication or left shift done in the narrow type: `(len + 16) as usize` wraps where `len as usize + 16` does not.
+	Wire lengths are u16, so this is how a near-maximum message turns into a short read or a panic."""
+	if F.dir in _NARROW:
+		return _NARROW[F.dir]
+	hits = []
+	judged = collections.Counter()
+	for n, r in F.fns.items():
+		if not n.startswith('lightning') and not n.startswith('<lightning'):
+			continue
+		if 'ser_macros' in r['file']:
+			continue
+		try:
+			fu = F.func(n)
+		except AnchorMissing:
+			continue
+		ex = None
+		for bi, si, st in fu.stmts():
+			rv = st[2]
+			if rv[0] == 'cast' and str(rv[1]).startswith('IntToInt') and rv[2][0] in ('c', 'm') and len(rv[2][1]) == 1:
+				sty = fu.locals[rv[2][1][0]].get('ty') or ''
+				if _WIDTH.get(sty, 99) <= 16 and _WIDTH.get(sty, 99) < _WIDTH.get(rv[3], 0):
+					judged[r['file']] += 1
+					ex = ex or Expr(fu, max_depth=6)
+					e = ex.of_operand(rv[2])
+					if e[0] == 'bin' and e[1] in ('Add', 'Mul', 'Shl', 'AddWithOverflow', 'MulWithOverflow', 'AddUnchecked', 'MulUnchecked'):
+						hits.append({'file': r['file'], 'fn': n, 'line': st[0], 'from': sty, 'to': rv[3], 'expr': expr_str(e)[-80:]})
+	_NARROW[F.dir] = (hits, judged)
+	return _NARROW[F.dir]
+
+def narrow_arith(F, rule_id, file_res, floor=1):
+	import re
+	hits, judged = narrow_arith_census(F)
+	n = sum(c for f, c in judged.items() if any(re.search(x, f) for x in file_res))
+	if n < floor:
+		return [Result(rule_id, False, 'anchor:narrow-arith', 'only %d widening casts from 8/16-bit integers found in %s (expected >= %d)' % (n, file_res, floor))]
+	out = []
+	for h in hits:
+		if any(re.search(x, h['file']) for x in file_res):
+			out.append(Result(rule_id, False, 'width:%s' % h['fn'].rsplit('::', 1)[-1], '%s: `%s` is computed in %s and only then widened to %s: it wraps at the top of the %s range (a length / count near the maximum is mis-sized)' % (h['fn'].rsplit('::', 1)[-1], h['expr'], h['from'], h['to'], h['from']), 1, where=F.where(h['fn'], h['line'])))
+	if not out:
+		out.append(Result(rule_id, True, 'ok:narrow-arith', '%d widening casts from 8/16-bit integers in %s: none widens the result of an addition / multiplication / shift done in the narrow type' % (n, '|'.join(file_res)), n))
+	return out
+
+NARROW_SCOPE = {
+	'C13': [r'ln/msgs\.rs$', r'ln/wire\.rs$', r'util/ser\.rs$', r'onion_message/packet\.rs$', r'lightning-types/'],
+	'C14': [r'ln/onion_utils\.rs$', r'onion_message/', r'blinded_path/'],
+	'C15': [r'ln/peer_handler\.rs$', r'ln/peer_channel_encryptor\.rs$'],
+	'C18': [r'offers/', r'lightning-invoice/'],
+}
+
+def narrow_for_property(F, pid, rule_id):
+	return narrow_arith(F, rule_id, NARROW_SCOPE[pid])
